@@ -17,11 +17,8 @@ Definition tomb : rng := (0, 0).                (* startIP = endIP = net.IPv6zer
 Definition be (b : list Z) : Z := fold_left (fun a x => a * 256 + x) b 0.
 (* ip.To16(): 4-byte -> v4-in-v6, 16-byte -> itself, otherwise nil *)
 Definition to16 (b : list Z) : option Z :=
-  match length b with
-  | 4%nat => Some (Z4 + be b)
-  | 16%nat => Some (be b)
-  | _ => None
-  end.
+  if (length b =? 4)%nat then Some (Z4 + be b)
+  else if (length b =? 16)%nat then Some (be b) else None.
 (* ip.To4() != nil on the 16-byte value *)
 Definition is_v4 (a : Z) : bool := (Z4 <=? a) && (a <? Z4 + 2^32).
 
